@@ -4,9 +4,10 @@ import HeimdallModel.Gen.JwtAlgs
 
 The decision ladder `Execute → jwt.ParseSigned → verifyToken → (getKey | verifyTokenWithoutKID) →
 verifyTokenWithKey → Claims.Validate → SubjectInfo.CreateSubject` together with `oauth2.Expectation` (`Merge`, the
-assertions) and the three scope matchers, over an *abstract token*:
+assertions), the three scope matchers and the JWK cache of `getKey`, over an *abstract token*:
 
 * `Token.alg`, `Token.kid`, `Token.critOk` — what the protected header says,
+* `Token.canonical`                        — the compact serialisation is the canonical base64url spelling,
 * `Token.payload`                          — the payload as a JSON value (`none`: not a JSON document),
 * `Token.sigOk mat`                        — whether the signature verifies, under the header's algorithm, with the
                                              key material `mat`.  This is the cryptographic oracle (go-jose and the Go
@@ -18,16 +19,19 @@ assertions) and the three scope matchers, over an *abstract token*:
 | `effective` | `newJwtAuthenticator` (default algorithms) → `WithConfig` (`conf.Assertions.Merge(a.a)`) → `verifyToken` (`a.a.Merge(Expectation{TrustedIssuers: {metadata.Issuer}})`) |
 | `decodeClaims` | decoding of the verified payload into `oauth2.Claims` (`Audience`, `Scopes`, `NumericDate`) |
 | `validate` | `Claims.Validate`: `AssertIssuer`, `AssertAudience`, `AssertValidity`, `AssertIssuanceTime`, `AssertScopes` |
-| `exactCovers`, `hierCovers`, `wildCovers` | `doMatch` of `Exact…`, `Hierarchic…`, `WildcardScopeStrategyMatcher` |
+| `covers1`, `hierCovers1`, `wildCovers1` | `doMatch` of `Exact…`, `Hierarchic…`, `WildcardScopeStrategyMatcher` |
 | `verifyWithKey` | `verifyTokenWithKey` |
-| `verify` | `getKey` (exactly one key with the `kid`, its certificate valid) / `verifyTokenWithoutKID` (first key that verifies) |
-| `subject` | `SubjectInfo.CreateSubject` (gjson paths restricted to plain member names / array indices) |
-| `authenticate` | `Execute` |
+| `selectByKid`, `verifyNoKid`, `verify` | `getKey` after a cache miss (exactly one key with the `kid`, its certificate valid) / `verifyTokenWithoutKID` (first key that verifies) |
+| `subject`, `Val.round` | `SubjectInfo.CreateSubject` (gjson paths restricted to member names / array indices; attribute numbers become `float64`) |
+| `authenticate` | `Execute` on a cold JWK cache |
+| `step`, `run` | `Execute` with the JWK cache of `getKey` (`calculateCacheKey(endpoint, rendered url, kid)`), request after request |
 
-Two places are modelled as they behave with the proposed repairs: `AssertValidity` with `fixes/C05-1.patch` (an `exp`
-/ `nbf` claim is evaluated whenever it is present, whatever its value) and the payload handed to `CreateSubject` with
-`fixes/C05-2.patch` (numbers as written in the verified payload, so an integral subject id keeps all its digits).  Algorithm lists come from `Gen/JwtAlgs.lean`, regenerated from the source on every
-run.  Core Lean only.
+The following places are modelled as they behave with the repairs proposed by this check (all in `/verif/fixes`):
+`C05-1` (an `exp` / `nbf` claim is evaluated whenever it is present), `C05-2` (an integral subject id keeps all its
+digits), `C05-3` (a numeric date outside the years 1–9999 is a decoding error), `C05-4` (a token without issuer is
+never trusted), `C05-5` (non-canonical serialisations are refused).  Not repaired and therefore modelled as it is:
+numbers in subject *attributes* are rounded to IEEE doubles (`Val.round`; known finding `C05-attrs-float64`).
+Algorithm lists come from `Gen/JwtAlgs.lean`, regenerated from the linked code on every run.  Core Lean only.
 -/
 namespace Heimdall.Jwt
 
@@ -76,6 +80,53 @@ def Val.members : Val → Option (List (String × Val))
   | .null => some []
   | _ => none
 
+/-! ## Numbers as IEEE doubles -/
+
+/-- the natural number nearest to `a` that a `float64` can hold (round half to even; `a < 2^1024`) -/
+def roundF64Nat (a : Nat) : Nat :=
+  let bits := a.log2 + 1
+  if bits ≤ 53 then a
+  else
+    let sh := bits - 53
+    let q := a >>> sh
+    let r := a % 2 ^ sh
+    let half := 2 ^ (sh - 1)
+    (if r > half ∨ (r = half ∧ q % 2 = 1) then q + 1 else q) <<< sh
+
+def roundF64 : Int → Int
+  | .ofNat a => .ofNat (roundF64Nat a)
+  | .negSucc a => -(.ofNat (roundF64Nat (a + 1)))
+
+mutual
+/-- `gjson.Result.Value()`: every number becomes a `float64`; integral numbers are rounded accordingly -/
+def Val.round : Val → Val
+  | .num m 0 => .num (roundF64 m) 0
+  | .arr l => .arr (roundList l)
+  | .obj kvs => .obj (roundFields kvs)
+  | v => v
+def roundList : List Val → List Val
+  | [] => []
+  | v :: r => v.round :: roundList r
+def roundFields : List (String × Val) → List (String × Val)
+  | [] => []
+  | (k, v) :: r => (k, v.round) :: roundFields r
+end
+
+mutual
+/-- every integral number of the value is exactly representable as a `float64` -/
+def Val.floatSafe : Val → Bool
+  | .num m 0 => m.natAbs ≤ 2 ^ 53
+  | .arr l => safeList l
+  | .obj kvs => safeFields kvs
+  | _ => true
+def safeList : List Val → Bool
+  | [] => true
+  | v :: r => v.floatSafe && safeList r
+def safeFields : List (String × Val) → Bool
+  | [] => true
+  | (_, v) :: r => v.floatSafe && safeFields r
+end
+
 /-! ## Splitting strings (`strings.Split` with a one-character separator) -/
 
 def splitChars (sep : Char) : List Char → List (List Char)
@@ -104,8 +155,11 @@ structure Claims where
   iat : Option Int := none
   deriving DecidableEq, Repr, Inhabited
 
-/-- `time.Time{}.Unix()`: a numeric date with this value is indistinguishable from an absent one -/
-def goZeroTime : Int := -62135596800
+/-- 0001-01-01T00:00:00Z, the zero `time.Time` (stands for "not set"); excluded -/
+def minDate : Int := -62135596800
+
+/-- 9999-12-31T23:59:59Z; included -/
+def maxDate : Int := 253402300799
 
 /-- a `string` field: absent and `null` leave it empty, any other non-string is a decoding error -/
 def strClaim (kvs : List (String × Val)) (k : String) : Option String :=
@@ -132,12 +186,14 @@ def listClaim (kvs : List (String × Val)) (k : String) : Option (List String) :
 /-- `NumericDate(f)`: truncation towards zero -/
 def truncNum (m : Int) (e : Nat) : Int := m.tdiv (10 ^ e)
 
-/-- `*NumericDate`: absent / `null` → not set; a number → its integral part; anything else is a decoding error -/
+/-- `*NumericDate`: absent / `null` → not set; a number → its integral part, which has to lie in the years 1–9999
+(after the zero time, up to the last second of 9999); anything else is a decoding error -/
 def dateClaim (kvs : List (String × Val)) (k : String) : Option (Option Int) :=
   match lookup k kvs with
   | none => some none
   | some .null => some none
-  | some (.num m e) => some (if truncNum m e = goZeroTime then none else some (truncNum m e))
+  | some (.num m e) =>
+    if minDate < truncNum m e ∧ truncNum m e ≤ maxDate then some (some (truncNum m e)) else none
   | some _ => none
 
 def decodeClaims (kvs : List (String × Val)) : Option Claims := do
@@ -261,7 +317,7 @@ def audienceOk (e : Expectation) (aud : List String) : Bool :=
 
 /-- `Claims.Validate` at the instant `nowMs` (milliseconds since the epoch; `AssertValidity` uses whole seconds) -/
 def validate (e : Expectation) (c : Claims) (nowMs : Int) : Except Why Unit :=
-  if !e.issuers.contains c.iss then .error .issuer
+  if c.iss == "" || !e.issuers.contains c.iss then .error .issuer
   else if !audienceOk e c.aud then .error .audience
   else if notYetValid e c.nbf nowMs then .error .notYetValid
   else if expired e c.exp nowMs then .error .expired
@@ -284,6 +340,8 @@ structure Key where
   /-- which key material this is (`Token.sigOk` refers to it) -/
   mat : Nat := 0
   cert : Cert := .none
+  /-- the certificate expires within the next 10 s (or has expired): such a key is never cached -/
+  certExpiring : Bool := false
   /-- go-jose can verify with it (a public or symmetric key; not, e.g., a private key) -/
   usable : Bool := true
   deriving DecidableEq, Repr, Inhabited
@@ -293,6 +351,8 @@ structure Token where
   kid : String := ""
   /-- no critical header parameter that go-jose does not understand -/
   critOk : Bool := true
+  /-- every segment is the canonical base64url spelling of its octets (no line breaks, no stray trailing bits) -/
+  canonical : Bool := true
   payload : Option Val
   sigOk : Nat → Bool
 
@@ -307,11 +367,11 @@ structure Metadata where
   hasJwks : Bool := true
   deriving DecidableEq, Repr, Inhabited
 
-/-- what the endpoints answer: `none` = unreachable / error status / not decodable -/
+/-- what the endpoints answer at one moment: `none` = unreachable / error status / not decodable.  The key-set
+endpoint is indexed by what its url renders to (see `endpointOf`). -/
 structure World where
   metadata : Option Metadata := none
-  jwks : Option (List Key) := none
-  deriving Repr, Inhabited
+  jwks : String → Option (List Key) := fun _ => none
 
 structure SubjectConf where
   idPath : List Seg := [{ key := "sub" }]
@@ -322,9 +382,13 @@ structure SubjectConf where
 structure Config where
   /-- `jwks_endpoint` (true) or `metadata_endpoint` (false) -/
   jwksMode : Bool := true
+  /-- the url of the JWKS endpoint contains `{{ .TokenIssuer }}` -/
+  templated : Bool := false
   assertions : Expectation := {}
   subject : SubjectConf := {}
   validateJwk : Bool := true
+  /-- `isCacheEnabled`: no `cache_ttl` configured, or a positive one (rule level over mechanism level) -/
+  cacheEnabled : Bool := true
   deriving DecidableEq, Repr, Inhabited
 
 inductive Outcome
@@ -348,6 +412,15 @@ def effective (cfg : Config) (rule : Option Expectation) (metaIssuer : String) :
     | none => proto
     | some r => r.merge proto
   a.merge { issuers := [metaIssuer] }
+
+/-- what the url of the key-set endpoint renders to for this token: with a `{{ .TokenIssuer }}` template it depends
+on the (not yet verified) `iss` claim -/
+def endpointOf (cfg : Config) (kvs : List (String × Val)) : String :=
+  if cfg.jwksMode && cfg.templated then
+    match lookup "iss" kvs with
+    | some (.str s) => s
+    | _ => "<no value>"
+  else ""
 
 /-- `validateJWK` -/
 def certAccepted (validateJwk : Bool) (k : Key) : Bool := !validateJwk || k.cert != .untrusted
@@ -374,18 +447,28 @@ def okB {ε α : Type} : Except ε α → Bool
   | .ok _ => true
   | .error _ => false
 
-/-- key selection and verification: with a `kid` exactly one key of the set must carry it and its certificate must
-be valid; without, the first key with a valid certificate that verifies the token decides -/
+/-- `getKey` after the key set was fetched: exactly one key of the set must carry the `kid` and its certificate must
+be valid -/
+def selectByKid (validateJwk : Bool) (ks : List Key) (kid : String) : Except Why Key :=
+  match ks.filter (fun k => k.kid = kid) with
+  | [] => .error .noKey
+  | [k] => if certAccepted validateJwk k then .ok k else .error .badCertificate
+  | _ :: _ :: _ => .error .ambiguousKey
+
+/-- `verifyTokenWithoutKID`: the first key with a valid certificate that verifies the token decides -/
+def verifyNoKid (a : Expectation) (validateJwk : Bool) (ks : List Key) (tok : Token) (kvs : List (String × Val))
+    (nowMs : Int) : Except Why Unit :=
+  if (ks.filter (certAccepted validateJwk)).any (fun k => okB (verifyWithKey a tok kvs nowMs k)) then .ok ()
+  else .error .noKey
+
+/-- key selection and verification against a freshly fetched key set -/
 def verify (a : Expectation) (validateJwk : Bool) (ks : List Key) (tok : Token) (kvs : List (String × Val))
     (nowMs : Int) : Except Why Unit :=
-  if tok.kid = "" then
-    if (ks.filter (certAccepted validateJwk)).any (fun k => okB (verifyWithKey a tok kvs nowMs k)) then .ok ()
-    else .error .noKey
+  if tok.kid = "" then verifyNoKid a validateJwk ks tok kvs nowMs
   else
-    match ks.filter (fun k => k.kid = tok.kid) with
-    | [] => .error .noKey
-    | [k] => if certAccepted validateJwk k then verifyWithKey a tok kvs nowMs k else .error .badCertificate
-    | _ :: _ :: _ => .error .ambiguousKey
+    match selectByKid validateJwk ks tok.kid with
+    | .error why => .error why
+    | .ok k => verifyWithKey a tok kvs nowMs k
 
 /-- gjson's `String()` of the value found for the subject id -/
 def idString : Val → Option String
@@ -402,7 +485,8 @@ def attrsSource (sc : SubjectConf) (payload : Val) : Option Val :=
   | none => some payload
   | some p => payload.get p
 
-/-- `SubjectInfo.CreateSubject` on the re-encoded verified payload -/
+/-- `SubjectInfo.CreateSubject` on the re-encoded verified payload; the attributes are what gjson's `Value()` makes
+of the selected object, i.e. with numbers as `float64` -/
 def subject (sc : SubjectConf) (payload : Val) : Outcome :=
   match payload.get sc.idPath with
   | none => .rejected .subjectId
@@ -413,7 +497,7 @@ def subject (sc : SubjectConf) (payload : Val) : Outcome :=
       if id = "" then .rejected .subjectId
       else
         match attrsSource sc payload with
-        | some (.obj kvs) => .accepted id (.obj kvs)
+        | some (.obj kvs) => .accepted id (Val.obj kvs).round
         | _ => .rejected .attributes
 
 /-- the metadata step of `verifyToken`: with a JWKS endpoint there is nothing to fetch and no issuer is named -/
@@ -424,7 +508,13 @@ def resolveMetadata (cfg : Config) (w : World) : Except Why Metadata :=
     | none => .error .metadata
     | some m => if m.hasJwks then .ok m else .error .metadata
 
-/-- `Execute` of the authenticator created from `cfg` and specialised by the rule-level assertions `rule` -/
+/-- the end of `Execute`: the subject is created once the token is verified -/
+def finish (sc : SubjectConf) (pl : Val) : Except Why Unit → Outcome
+  | .error why => .rejected why
+  | .ok () => subject sc pl
+
+/-- `Execute` of the authenticator created from `cfg` and specialised by the rule-level assertions `rule`, on a
+cold JWK cache -/
 def authenticate (cfg : Config) (rule : Option Expectation) (w : World) (p : Presented) (nowMs : Int) : Outcome :=
   if !cfg.ok then .noAuthenticator
   else
@@ -432,7 +522,7 @@ def authenticate (cfg : Config) (rule : Option Expectation) (w : World) (p : Pre
     | .absent => .rejected .noToken
     | .garbage => .rejected .malformed
     | .token tok =>
-      if !Gen.supported.contains tok.alg then .rejected .malformed
+      if !(Gen.supported.contains tok.alg && tok.canonical) then .rejected .malformed
       else
         match tok.payload with
         | none => .rejected .payload
@@ -443,11 +533,67 @@ def authenticate (cfg : Config) (rule : Option Expectation) (w : World) (p : Pre
             match resolveMetadata cfg w with
             | .error why => .rejected why
             | .ok md =>
-              match w.jwks with
+              match w.jwks (endpointOf cfg kvs) with
               | none => .rejected .keySet
               | some ks =>
-                match verify (effective cfg rule md.issuer) cfg.validateJwk ks tok kvs nowMs with
-                | .error why => .rejected why
-                | .ok () => subject cfg.subject pl
+                finish cfg.subject pl (verify (effective cfg rule md.issuer) cfg.validateJwk ks tok kvs nowMs)
+
+/-! ## The JWK cache of `getKey` -/
+
+/-- cached keys by (rendered endpoint url, kid) -/
+abbrev Cache := List ((String × String) × Key)
+
+def Cache.find (c : Cache) (u kid : String) : Option Key :=
+  match c with
+  | [] => none
+  | ((u', kid'), k) :: r => if u' = u ∧ kid' = kid then some k else Cache.find r u kid
+
+/-- one request against the endpoints `w` with the cache `cache`: outcome and the cache afterwards.  Only tokens
+with a `kid` use the cache: a hit short-cuts fetching, uniqueness and certificate validation; after a miss the
+selected key is stored (unless caching is off or its certificate is about to expire) — before the token is verified. -/
+def step (cfg : Config) (rule : Option Expectation) (w : World) (cache : Cache) (p : Presented) (nowMs : Int) :
+    Outcome × Cache :=
+  if !cfg.ok then (.noAuthenticator, cache)
+  else
+    match p with
+    | .absent => (.rejected .noToken, cache)
+    | .garbage => (.rejected .malformed, cache)
+    | .token tok =>
+      if !(Gen.supported.contains tok.alg && tok.canonical) then (.rejected .malformed, cache)
+      else
+        match tok.payload with
+        | none => (.rejected .payload, cache)
+        | some pl =>
+          match pl.members with
+          | none => (.rejected .payload, cache)
+          | some kvs =>
+            match resolveMetadata cfg w with
+            | .error why => (.rejected why, cache)
+            | .ok md =>
+              let a := effective cfg rule md.issuer
+              let u := endpointOf cfg kvs
+              if tok.kid = "" then
+                match w.jwks u with
+                | none => (.rejected .keySet, cache)
+                | some ks => (finish cfg.subject pl (verifyNoKid a cfg.validateJwk ks tok kvs nowMs), cache)
+              else
+                match (if cfg.cacheEnabled then cache.find u tok.kid else none) with
+                | some k => (finish cfg.subject pl (verifyWithKey a tok kvs nowMs k), cache)
+                | none =>
+                  match w.jwks u with
+                  | none => (.rejected .keySet, cache)
+                  | some ks =>
+                    match selectByKid cfg.validateJwk ks tok.kid with
+                    | .error why => (.rejected why, cache)
+                    | .ok k =>
+                      (finish cfg.subject pl (verifyWithKey a tok kvs nowMs k),
+                       if cfg.cacheEnabled && !k.certExpiring then ((u, tok.kid), k) :: cache else cache)
+
+/-- a sequence of requests, each against what the endpoints answer at that moment, starting from `cache` -/
+def run (cfg : Config) (rule : Option Expectation) :
+    List (World × Presented × Int) → Cache → List Outcome
+  | [], _ => []
+  | (w, p, now) :: rest, cache =>
+    (step cfg rule w cache p now).1 :: run cfg rule rest (step cfg rule w cache p now).2
 
 end Heimdall.Jwt
